@@ -259,6 +259,16 @@ def _container_probe(rec):
                 bad = True
             except (pa.errors.SchemaError, pa.errors.SchemaErrors):
                 pass
+        # C04: a frame that carries this schema in its accessor is still the CALLER's object: inplace=False must not write it
+        tagged = schema.validate(pd.DataFrame({"a": [1, 2]}))
+        filt = pa.DataFrameSchema({"a": pa.Column(float, coerce=True)}, strict="filter")
+        mine = filt.validate(pd.DataFrame({"a": [1, 2], "x": [0, 0]}))
+        mine["x"] = [7, 8]
+        snapshot = mine.copy()
+        filt.validate(mine)
+        if list(mine.columns) != list(snapshot.columns) or not mine.equals(snapshot):
+            bad = True
+            obs["validate(inplace=False) of a frame returned by an earlier validate"] = {"columns before": list(snapshot.columns), "after": list(mine.columns)}
         full = pa.DataFrameSchema({"a": pa.Column(int, pa.Check.gt(0), coerce=True), "b": pa.Column(float, default=1.5, nullable=False)},
                                   strict="filter", add_missing_columns=True)
         res = full.validate(pd.DataFrame({"a": ["1", "2"], "x": [0, 0]}))
